@@ -363,22 +363,29 @@ def equal(a, b, explain=None):
             m0[tok_idx(j)] = tok_idx(i)
     a = normalise(a)
     b = normalise(b.rename(m0))
-    rest = list(b.terms)
-    cert = []
-    for t in a.terms:
-        for k, u in enumerate(rest):
+    rest = list(enumerate(b.terms))
+    cert = []; raw = []
+    for li, t in enumerate(a.terms):
+        for k, (ri, u) in enumerate(rest):
             m = term_iso(t, u, {})
             if m is not None and t.coeff == u.coeff:
                 cert.append({'lhs': repr(t), 'rhs': repr(u), 'bijection': {repr(x): repr(y) for x, y in m.items()}})
+                raw.append((li, ri, {id(x): id(y) for x, y in m.items() if any(x is bb for bb in u.bound)}))
                 rest.pop(k)
                 break
         else:
-            if explain is not None: explain.append(f'no partner for lhs term {t!r}; rhs terms left: {rest!r}')
+            if explain is not None: explain.append(f'no partner for lhs term {t!r}; rhs terms left: {[u for _, u in rest]!r}')
             return False
     if rest:
-        if explain is not None: explain.append(f'unmatched rhs terms {rest!r}')
+        if explain is not None: explain.append(f'unmatched rhs terms {[u for _, u in rest]!r}')
         return False
-    if explain is not None: explain.append({'certificate': cert})
+    # independent re-check of the certificate
+    from . import certcheck
+    ok, why = certcheck.check(a.terms, b.terms, raw)
+    if not ok:
+        if explain is not None: explain.append(f'certificate rejected by the independent checker: {why}')
+        raise NotImplementedError(f'certificate rejected by the independent checker: {why}')
+    if explain is not None: explain.append({'certificate': cert, 'rechecked': why})
     return True
 
 
